@@ -29,6 +29,16 @@ def good := "hist=0/put:1:10/1/2/T 0/get:1/3/4/10,T 1/has:1/5/6/T;ev=[];len=1;si
 #guard run wl "hist=0/put:1:10/1/2/T 0/get:1/3/4/0,F 1/has:1/5/6/T;ev=[];len=1;size=1" ==
   ("not-linearizable-wrt-cache-model", "bad C09 history has no linearization explained by the reference LRU cache (results, callback order, final Len/Size)")
 
+-- variable sizes (flag `v`: size = value % 3 + 1): put 1:10 has size 2, put 2:12 size 1 (Size 3 ≠ Len 2),
+-- put 3:11 has size 3 and evicts both (LRU first) … and the same record is rejected without the flag;
+-- with limit 2 the Put of a value of size 3 is refused
+def wlv := "run 3 1v 0:put:1:10 0:put:2:12 0:size 0:put:3:11"
+def goodv := "hist=0/put:1:10/1/2/T 0/put:2:12/3/4/T 0/size/5/6/3 0/put:3:11/7/8/T;ev=[1:10 2:12];len=1;size=3"
+#guard run wlv goodv == (goodv, "ok")
+#guard (run "run 3 1 0:put:1:10 0:put:2:12 0:size 0:put:3:11" goodv).1 == "not-linearizable-wrt-cache-model"
+#guard run "run 2 1tv 0:put:1:11 0:len" "hist=0/put:1:11/1/2/F 0/len/3/4/0;ev=[];len=0;size=0" ==
+  ("hist=0/put:1:11/1/2/F 0/len/3/4/0;ev=[];len=0;size=0", "ok")
+
 -- 1. an event token that does not parse (bad op name) used to be dropped silently
 #guard isMalformed wl "hist=0/put:1:10/1/2/T 0/fetch:1/3/4/10,T 1/has:1/5/6/T;ev=[];len=1;size=1"
 -- 2. an event with a missing field
